@@ -1,7 +1,7 @@
 SPECIFICATION Spec
 CONSTANTS
   NRules = 2
-  PhaseSet = {1, 4, 5}
+  PhaseSet = {1, 4}
   Lines = {1, 2}
   LinesIgnored = TRUE
   OffByOne = FALSE
